@@ -109,6 +109,9 @@ def run(ctx):
         Src('vdif_real_usb', lambda: pbr.BasebandReader(DATA + 'sample.vdif'), (DATA + 'sample.vdif', 'rs'), {}, True, False, ident),
         Src('vdif_real_lsb', lambda: pbr.BasebandReader(DATA + 'sample.vdif', lower_sideband=True), (DATA + 'sample.vdif', 'rs'), {}, True, True, ident),
         Src('vdif_real_mixed', lambda: pbr.BasebandReader(DATA + 'sample.vdif', lower_sideband=lsb_arr), (DATA + 'sample.vdif', 'rs'), {}, True, lsb_arr, ident),
+        # the same per-thread mask in other spellings (0/1 integers, a list): a mask is a mask whatever holds it
+        Src('vdif_real_mixed_int', lambda: pbr.BasebandReader(DATA + 'sample.vdif', lower_sideband=lsb_arr.astype(np.int64)), (DATA + 'sample.vdif', 'rs'), {}, True, lsb_arr, ident),
+        Src('vdif_real_mixed_list', lambda: pbr.BasebandReader(DATA + 'sample.vdif', lower_sideband=[int(v) for v in lsb_arr]), (DATA + 'sample.vdif', 'rs'), {}, True, lsb_arr, ident),
         Src('vdif_real_baseband', lambda: pbr.BasebandReader(DATA + 'sample.vdif', signal_type=pb.BasebandSignal, signal_kwargs=kwb),
             (DATA + 'sample.vdif', 'rs'), {}, True, False, ident),
         Src('vdif_intensity', lambda: pbr.BasebandReader(DATA + 'sample.vdif', signal_type=pb.IntensitySignal, signal_kwargs=kwi),
